@@ -44,12 +44,23 @@ static place_t place(const unsigned char *src, size_t n, unsigned off, size_t g,
 enum { H_MD5, H_FNV32, H_FNV64, H_M32, H_M128 };
 
 /* run one hash on one placement; writes a canonical result string */
+/* the errno value the "caller" brings into the library call: derived from the operation text, so a
+ * single-operation replay plants the same value; no hash result may depend on it */
+static int planted_errno = 0;
+static const int errno_cycle[8] = {0, ENOMEM, ERANGE, EINTR, ENOENT, EINVAL, EAGAIN, ENOBUFS};
+static void plant_from(const char *line) {
+    unsigned h = 5381;
+    for (const char *c = line; *c && *c != '\n'; c++) h = h * 33u + (unsigned char) *c;
+    planted_errno = errno_cycle[(h >> 3) & 7];
+}
+
 static void run_one(int which, const unsigned char *src, size_t n, unsigned off, size_t g, unsigned salt,
                     char *out, size_t outsz) {
     place_t d = place(src, n, off, g, salt);
     place_t rb = place((const unsigned char *)"\xEE\xEE\xEE\xEE\xEE\xEE\xEE\xEE\xEE\xEE\xEE\xEE\xEE\xEE\xEE\xEE",
                        16, off, 0, salt);
     out[0] = 0;
+    errno = planted_errno;
     switch (which) {
         case H_FNV32: snprintf(out, outsz, "%08x", (unsigned) qhashfnv1_32(d.p, n)); break;
         case H_FNV64: snprintf(out, outsz, "%016llx", (unsigned long long) qhashfnv1_64(d.p, n)); break;
@@ -149,6 +160,7 @@ int main(void) {
     char *line = NULL; size_t cap = 0; ssize_t len;
     setvbuf(stdout, NULL, _IOFBF, 1 << 16);
     while ((len = getline(&line, &cap, stdin)) > 0) {
+        plant_from(line);
         char **w = malloc(sizeof(char *) * (size_t)(len + 2));
         int nw = 0; char *save = NULL;
         for (char *t = strtok_r(line, " \t\r\n", &save); t; t = strtok_r(NULL, " \t\r\n", &save)) w[nw++] = t;
@@ -285,6 +297,7 @@ int main(void) {
             nsched = 0; isched = 0;
             for (int i = 3; i < nw && nsched < MAXW; i++) sched[nsched++] = atol(w[i]);
             unsigned char *dg = malloc(16);
+            errno = planted_errno;
             bool ok = qhashmd5_file(datapath, (off_t) off, (ssize_t) nb, dg);
             nsched = 0;
             if (ok) { printf("ok "); puthex(stdout, dg, 16); } else printf("false");
